@@ -20,7 +20,7 @@ def plan(ctx):
 
 def _vacuity(tot):
     if tot["nontrivial"] < 10:
-        raise par.HarnessError("C01 vacuity guard: %d games with a limit-only value" % tot["nontrivial"])
+        raise par.GuardError("C01 vacuity guard: %d games with a limit-only value" % tot["nontrivial"])
 
 
 def run(ctx):
